@@ -667,7 +667,9 @@ func readUnion(tr *tokenReader) (Union, error) {
 
 			// This is a close curly-- we must advance past it or the union
 			// will read it and believe it is complete
-			tr.Next()
+			if !tr.Next() {
+				return union, readError(tr.nextToken, "union definition ended early")
+			}
 			skipEndOfLineComments(tr)
 			optNewline(tr)
 
@@ -689,6 +691,10 @@ func readUnion(tr *tokenReader) (Union, error) {
 				nextCommentTags = append(nextCommentTags, tag)
 			}
 			nextCommentLines = append(nextCommentLines, cmt)
+		case tokenKindStruct, tokenKindMessage, tokenKindEnum, tokenKindUnion, tokenKindConst, tokenKindReadOnly, tokenKindImport:
+			// a new definition can only start once this one is closed; reading on would take
+			// that definition's closing brace for the union's
+			return union, readError(tk, "unexpected (%v) in union body", tk.kind)
 		}
 	}
 
